@@ -685,6 +685,36 @@ func runC15Classes(c *eng.Ctx, cr *caseRunner) {
 			return err, "provider-disposed"
 		}},
 	}
+	// "... distinguishable ... through every Build": the same classes when the failing set was
+	// reached by editing a collection that had been built successfully before (a service swapped
+	// for one of another lifetime, a dependency replaced by one that closes a cycle), with the
+	// first provider closed or still alive
+	for i, s := range SwapSpecs(true) {
+		s := s
+		probes = append(probes, probe{fmt.Sprintf("lifetime:second-build-after-swap:%s:%d", pool.Ctors[s.Regs[2].Ctor].Name, i%4), func() (error, string) {
+			r := NewRun(s, NewModel(s), nil, nil)
+			r.Build()
+			r.Finish()
+			if r.BuildPanic != nil {
+				panic(r.BuildPanic)
+			}
+			return r.BuildErr, "lifetime"
+		}})
+	}
+	for _, keep := range []bool{false, true} {
+		for _, life := range allLifetimes {
+			s := &Spec{RebuildAfter: 2, KeepSibling: keep, Regs: []Reg{mkReg("Leaf_K1_a", life), mkReg("PosA_0_2", life), {Remove: true, RmType: "K1", Tail: true}, tailReg(mkReg("PosA_1_1", life))}}
+			probes = append(probes, probe{fmt.Sprintf("circular:second-build-after-swap:%s:sibling-alive=%v", lifeName(life), keep), func() (error, string) {
+				r := NewRun(s, NewModel(s), nil, nil)
+				r.Build()
+				r.Finish()
+				if r.BuildPanic != nil {
+					panic(r.BuildPanic)
+				}
+				return r.BuildErr, "circular"
+			}})
+		}
+	}
 	for _, pr := range probes {
 		idx, mine := cr.next()
 		if !mine {
